@@ -12,12 +12,16 @@ def run(pid, tier, seed, own):
         if 'C08' in own:
             genprops.spread_stage(rep, pool, tier)
         traces = genprops.collect(rep, pool, tier, seed, perturb=False, nseeds=1 if q else 6, maxn=2, rich=True,
-                                  label='counts <= 2, rich optional domains', only_twosided=two)
+                                  label='counts <= 2, rich optional domains', only_twosided=two, every=2 if q else 1)
         traces += genprops.collect(rep, pool, tier, seed + 1, perturb=False, nseeds=1 if q else 4, maxn=3, rich=False,
-                                   label='counts <= 3', only_twosided=two)
+                                   label='counts <= 3', only_twosided=two, every=2 if q else 1)
         # quotas / targets / projects per lecturer with every kind of remainder (n2 mod n3 in 0..n3-1)
         traces += genprops.collect(rep, pool, tier, seed + 3, perturb=False, nseeds=1, maxn=2, rich=False, types={'spa'},
                                    counts={'n1': {2}, 'n2': {5, 6, 7}, 'n3': {4, 5}}, label='spread stress: n2 in 5..7, n3 in 4..5', only_twosided=two)
+        # larger counts, longer lists, three instances per run
+        traces += genprops.collect(rep, pool, tier, seed + 5, perturb=False, nseeds=1, maxn=4, rich=False, numinsts={3},
+                                   counts={'n1': {5}, 'n2': {8, 10}, 'n3': {6}}, label='larger counts: n1 5, n2 8/10, n3 6, lists up to 4, 3 instances',
+                                   only_twosided=two)
         if 'C08' in own:
             # many instances in one run: file names 0.txt .. 11.txt
             traces += genprops.collect(rep, pool, tier, seed + 4, perturb=False, nseeds=1, maxn=1, rich=False, numinsts={12},
